@@ -20,6 +20,9 @@ real binary (exit status; AddressSanitizer/UBSan in the thorough tier).
 namespace CMacVerif.Lifecycle
 open CMacVerif.Gen.Lifecycle
 
+def noExempt : Nat → Bool := fun _ => false
+def allExempt : Nat → Bool := fun _ => true
+
 /-! ## generic theorems -/
 
 /-- abstract value of field `f` after the whole program, and what it promises -/
@@ -86,6 +89,25 @@ theorem no_null_use (st : Stmt) (known : Known) (h : wfNull known st = true) (en
     rw [this] at hr
     exact hr.nul rfl e he rfl
 
+/-- **each allocation is freed at most once, only allocations are freed, and in a run without
+leak every allocation is freed exactly once** — for every program and every option vector (the
+log distinguishes `free` of a live allocation from `dfree`, which `noBad` excludes). -/
+theorem frees_exactly_once (st : Stmt) (env : Env) :
+    (∀ f k, (exec env st St.init).log.count (Event.free f k) ≤ 1) ∧
+    (∀ f k, Event.free f k ∈ (exec env st St.init).log → Event.alloc f k ∈ (exec env st St.init).log) ∧
+    ((exec env st St.init).noLeak noExempt →
+      ∀ f k, Event.alloc f k ∈ (exec env st St.init).log →
+        (exec env st St.init).log.count (Event.free f k) = 1) := by
+  have hi := logInv_exec env st St.init logInv_init
+  refine ⟨hi.once, hi.freeAlloc, ?_⟩
+  intro hl f k hm
+  rcases hi.fate f k hm with h1 | h1 | h1
+  · have := hl.2 f rfl
+    simp [h1, PState.isOwned] at this
+  · exact h1
+  · have := hl.1 _ h1 rfl
+    simp [Event.isLost] at this
+
 /-- assumptions given as a list of (option, value) pairs -/
 theorem consistent_ofList (l : List (Nat × Bool)) (env : Env) (h : ∀ p ∈ l, env p.1 = p.2) :
     Consistent (Known.ofList l) env := by
@@ -100,8 +122,6 @@ theorem consistent_ofList (l : List (Nat × Bool)) (env : Env) (h : ∀ p ∈ l,
     rw [← hq, ← hb]; exact h p hm
   · simp at hb
 
-def noExempt : Nat → Bool := fun _ => false
-def allExempt : Nat → Bool := fun _ => true
 
 /-! ## LiveOutputManager (src/LiveOutputManager.hpp) -/
 
@@ -273,5 +293,85 @@ theorem rhdSimulation_null_source_distribution_is_dereferenced :
     ∃ env : Env, Event.nullUse (idxOf rhdSimulation.fields "sourcedistribution") ∈
       (rhdSimulation.run env).log :=
   ⟨fun o => o == idxOf rhdSimulation.opts "density_function:=DensityFunctionFactory::generate", by decide +kernel⟩
+
+/-! ## the random photon source distributions: `std::ofstream *_output_file`, two constructors each
+(the normal one and the restart constructor; /repo commit d5ef870 made the restart constructors
+initialise the pointer) -/
+
+theorem uniformRandomPSD_safe (env : Env) :
+    (uniformRandomPSD.run env).noBad ∧ (uniformRandomPSD.run env).noLeak noExempt ∧
+    (uniformRandomPSD.run env).noNullUse :=
+  ⟨(ctor_dtor_safe _ Known.none noExempt (by decide) env (consistent_none env)).1,
+   (ctor_dtor_safe _ Known.none noExempt (by decide) env (consistent_none env)).2,
+   no_null_use _ Known.none (by decide) env (consistent_none env)⟩
+
+theorem uniformRandomPSDRestart_safe (env : Env) :
+    (uniformRandomPSDRestart.run env).noBad ∧ (uniformRandomPSDRestart.run env).noLeak noExempt ∧
+    (uniformRandomPSDRestart.run env).noNullUse :=
+  ⟨(ctor_dtor_safe _ Known.none noExempt (by decide) env (consistent_none env)).1,
+   (ctor_dtor_safe _ Known.none noExempt (by decide) env (consistent_none env)).2,
+   no_null_use _ Known.none (by decide) env (consistent_none env)⟩
+
+theorem caproniPSD_safe (env : Env) :
+    (caproniPSD.run env).noBad ∧ (caproniPSD.run env).noLeak noExempt ∧
+    (caproniPSD.run env).noNullUse :=
+  ⟨(ctor_dtor_safe _ Known.none noExempt (by decide) env (consistent_none env)).1,
+   (ctor_dtor_safe _ Known.none noExempt (by decide) env (consistent_none env)).2,
+   no_null_use _ Known.none (by decide) env (consistent_none env)⟩
+
+theorem caproniPSDRestart_safe (env : Env) :
+    (caproniPSDRestart.run env).noBad ∧ (caproniPSDRestart.run env).noLeak noExempt ∧
+    (caproniPSDRestart.run env).noNullUse :=
+  ⟨(ctor_dtor_safe _ Known.none noExempt (by decide) env (consistent_none env)).1,
+   (ctor_dtor_safe _ Known.none noExempt (by decide) env (consistent_none env)).2,
+   no_null_use _ Known.none (by decide) env (consistent_none env)⟩
+
+/-- `DiscPatchPhotonSourceDistribution` has no destructor body: nothing invalid can happen, but
+the output stream is never deleted (see `discPatchPSD_output_file_leaked`) -/
+theorem discPatchPSD_no_invalid_free (env : Env) :
+    (discPatchPSD.run env).noBad ∧ (discPatchPSD.run env).noNullUse ∧
+    (discPatchPSDRestart.run env).noBad ∧ (discPatchPSDRestart.run env).noNullUse :=
+  ⟨(ctor_dtor_safe _ Known.none allExempt (by decide) env (consistent_none env)).1,
+   no_null_use _ Known.none (by decide) env (consistent_none env),
+   (ctor_dtor_safe _ Known.none allExempt (by decide) env (consistent_none env)).1,
+   no_null_use _ Known.none (by decide) env (consistent_none env)⟩
+
+/-- with the source output switched on, `DiscPatchPhotonSourceDistribution` leaks its
+`std::ofstream` (both constructors): the stream is never closed or deleted -/
+theorem discPatchPSD_output_file_leaked :
+    (∃ env : Env, ((discPatchPSD.run env).ptr 0).isOwned = true) ∧
+    (∃ env : Env, ((discPatchPSDRestart.run env).ptr 0).isOwned = true) :=
+  ⟨⟨fun _ => true, by decide⟩, ⟨fun _ => true, by decide⟩⟩
+
+/-- every constructor of the three classes initialises `_output_file` -/
+theorem randomPSD_initialised (env : Env) :
+    ((uniformRandomPSD.afterCtor env).ptr 0).isUninit = false ∧
+    ((uniformRandomPSDRestart.afterCtor env).ptr 0).isUninit = false ∧
+    ((discPatchPSD.afterCtor env).ptr 0).isUninit = false ∧
+    ((discPatchPSDRestart.afterCtor env).ptr 0).isUninit = false ∧
+    ((caproniPSD.afterCtor env).ptr 0).isUninit = false ∧
+    ((caproniPSDRestart.afterCtor env).ptr 0).isUninit = false :=
+  ⟨ctor_initialises _ Known.none 1 (by decide) env (consistent_none env) 0 (by decide),
+   ctor_initialises _ Known.none 1 (by decide) env (consistent_none env) 0 (by decide),
+   ctor_initialises _ Known.none 1 (by decide) env (consistent_none env) 0 (by decide),
+   ctor_initialises _ Known.none 1 (by decide) env (consistent_none env) 0 (by decide),
+   ctor_initialises _ Known.none 1 (by decide) env (consistent_none env) 0 (by decide),
+   ctor_initialises _ Known.none 1 (by decide) env (consistent_none env) 0 (by decide)⟩
+
+/-- the restart constructor as it was before d5ef870 (kept by hand): `_output_file` is only set
+when the restart file says there was an output file -/
+def randomPSDRestartBeforeD5ef870 : ClassDesc where
+  name := "UniformRandomPhotonSourceDistribution(RestartReader&)@d5ef870^"
+  fields := ["_output_file"]
+  opts := ["has_output"]
+  ctor := .ite (.opt 0) (.setNew 0) .skip
+  dtor := .ite (.nonNull 0) (.seq (.use 0) (.del 0)) .skip
+
+/-- the defect fixed in d5ef870: restarting a run without source output makes the destructor
+test, close and delete an uninitialised pointer -/
+theorem randomPSD_restart_before_fix_unsafe :
+    Event.wild 0 ∈ (randomPSDRestartBeforeD5ef870.run (envOf [false])).log ∧
+    wf Known.none noExempt randomPSDRestartBeforeD5ef870.prog = false ∧
+    wfInit Known.none randomPSDRestartBeforeD5ef870.ctor 1 = false := by decide
 
 end CMacVerif.Lifecycle
